@@ -9,6 +9,8 @@ import (
 	"strconv"
 	"strings"
 	"time"
+	"unicode"
+	"unicode/utf8"
 
 	"rare/cmd/helpers"
 	"rare/pkg/aggregation"
@@ -17,7 +19,10 @@ import (
 	"github.com/araddon/dateparse"
 )
 
-// ---------------------------------------------------------------- library oracles (trusted, handed to the model as data)
+// ---------------------------------------------------------------- library oracles
+// dateparse.ParseFormat / time.Parse are still handed to the model as data (df, dp fields).
+// strconv.ParseFloat and strings.ToLower are NOT: the Lean driver computes them with the model
+// (F64.parseFloat, lowerK); ops pf / smart / lower / fold / lowtab compare the models with Go directly.
 
 // floatOrd is an order embedding of the non-NaN float64s into int64 (-0 and +0 coincide).
 func floatOrd(v float64) int64 {
@@ -150,7 +155,76 @@ func c13Names(items []sorting.NameValuePair) string {
 	return HexListS(l)
 }
 
+func c13LowerIsASCII(s string) bool {
+	for i := 0; i < len(s); i++ {
+		if s[i] >= utf8.RuneSelf {
+			return false
+		}
+	}
+	return true
+}
+
+func c13RunLib(f []string) (string, bool) {
+	switch f[0] {
+	case "pf":
+		return "ok " + c13PF(UnHexListS(f[1])), true
+	case "smart":
+		keys := UnHexListS(f[1])
+		n := len(keys)
+		m := make([][]bool, n)
+		var sb strings.Builder
+		for i := 0; i < n; i++ {
+			m[i] = make([]bool, n)
+			for j := 0; j < n; j++ {
+				m[i][j] = sorting.ByNameSmart(keys[i], keys[j])
+				if m[i][j] {
+					sb.WriteByte('1')
+				} else {
+					sb.WriteByte('0')
+				}
+			}
+		}
+		mat := sb.String()
+		if n == 0 {
+			mat = "-"
+		}
+		return "ok m=" + mat + " v=" + c13Verdict(n, m), true
+	case "lower":
+		return "ok " + HexS(strings.ToLower(string(UnHex(f[1])))), true
+	case "fold":
+		l := strings.ToLower(string(UnHex(f[1])))
+		if c13LowerIsASCII(l) {
+			return "ok " + HexS(l), true
+		}
+		return "ok none", true
+	case "lowtab":
+		var parts []string
+		for r := rune(0); r <= unicode.MaxRune; r++ {
+			l := unicode.ToLower(r)
+			if r < 0x80 {
+				want := r
+				if 'A' <= r && r <= 'Z' {
+					want = r + 32
+				}
+				if l != want {
+					parts = append(parts, fmt.Sprintf("ascii-mismatch-%d", r))
+				}
+			} else if l < 0x80 {
+				parts = append(parts, fmt.Sprintf("%d:%d", r, l))
+			}
+			if l < 0 || l == 0x130 || l == 0x212A {
+				parts = append(parts, fmt.Sprintf("bad-image-%d", r))
+			}
+		}
+		return "ok " + strings.Join(parts, ","), true
+	}
+	return "", false
+}
+
 func c13Run(f []string) string {
+	if ans, ok := c13RunLib(f); ok {
+		return ans
+	}
 	op := f[0]
 	name := string(UnHex(f[1]))
 	keys := UnHexListS(f[2])
@@ -314,12 +388,206 @@ func c13Case(r *Rand, s string) string {
 	return s
 }
 
+// c13Dot: now and then spell an i as U+0130 (strings.ToLower maps it to 'i': still a weekday/month name)
+// or as dotless U+0131 (not a name any more).
+func c13Dot(r *Rand, s string) string {
+	if !r.Chance(1, 12) {
+		return s
+	}
+	for i := 0; i < len(s); i++ {
+		if s[i] == 'i' || s[i] == 'I' {
+			return s[:i] + Pick(r, []string{"İ", "İ", "ı"}) + s[i+1:]
+		}
+	}
+	return s
+}
+
 func c13Date(r *Rand, layout string) string {
 	t := time.Date(r.Range(1999, 2030), time.Month(r.Range(1, 12)), r.Range(1, 28), r.Intn(24), r.Intn(60), r.Intn(60), r.Intn(3)*500000000, time.UTC)
 	if r.Chance(1, 6) {
 		t = time.Date(2022, time.Month(r.Range(8, 9)), r.Range(1, 3), 10, 0, r.Intn(2), 0, time.UTC)
 	}
 	return t.Format(layout)
+}
+
+// ---------------------------------------------------------------- generators for the modelled library calls
+
+// c13FloatText: structure-aware spellings around strconv.ParseFloat's grammar (mostly valid, some broken).
+func c13FloatText(r *Rand) string {
+	digits := func(n int) string {
+		b := make([]byte, n)
+		for i := range b {
+			b[i] = byte('0' + r.Intn(10))
+		}
+		return string(b)
+	}
+	var sb strings.Builder
+	switch r.Intn(8) {
+	case 0:
+		sb.WriteString("+")
+	case 1, 2:
+		sb.WriteString("-")
+	}
+	switch r.Intn(14) {
+	case 0: // specials
+		sb.WriteString(c13Case(r, Pick(r, []string{"inf", "infinity", "nan", "in", "infin", "infinit", "infinityy", "na", "nann"})))
+		return sb.String()
+	case 1, 2: // hex floats
+		sb.WriteString(Pick(r, []string{"0x", "0X"}))
+		hx := func(n int) string {
+			b := make([]byte, n)
+			for i := range b {
+				b[i] = Pick(r, []byte("0123456789abcdefABCDEF"))
+			}
+			return string(b)
+		}
+		sb.WriteString(hx(r.Range(0, 4)))
+		if r.Bool() {
+			sb.WriteString(".")
+			sb.WriteString(hx(r.Range(0, 3)))
+		}
+		if !r.Chance(1, 6) {
+			sb.WriteString(Pick(r, []string{"p", "P"}))
+			sb.WriteString(Pick(r, []string{"", "+", "-"}))
+			sb.WriteString(Pick(r, []string{"0", "1", "4", "10", "52", "1023", "1024", "1074", "1075", "2000", "99999", ""}))
+		}
+		return sb.String()
+	case 3: // near the representable limits / subnormals / ties
+		sb.WriteString(Pick(r, []string{"1.7976931348623157e308", "1.7976931348623158e308", "1.7976931348623159e308", "1.797693134862315807e308",
+			"4.9e-324", "2.4703282292062327e-324", "2.4703282292062328e-324", "2.5e-324", "2.2250738585072014e-308", "2.2250738585072011e-308",
+			"9007199254740993", "9007199254740992", "9007199254740991", "9007199254740994.5", "18014398509481985", "1e23", "8.41e21", "1e22",
+			"0.1", "0.30000000000000004", "123456789012345678901234567890", "1e309", "1e308", "1e-323", "1e-324", "0.000000000000000000000000000001"}))
+		return sb.String()
+	}
+	// decimal: int part, optional underscores, fraction, exponent
+	ip := digits(r.Range(0, 4))
+	if r.Chance(1, 10) {
+		ip = "00" + ip
+	}
+	if r.Chance(1, 10) && len(ip) > 1 {
+		ip = ip[:1] + "_" + ip[1:]
+	}
+	if r.Chance(1, 40) {
+		ip = "_" + ip
+	}
+	sb.WriteString(ip)
+	if r.Chance(1, 2) {
+		sb.WriteString(".")
+		sb.WriteString(digits(r.Range(0, 4)))
+	}
+	if r.Chance(1, 3) {
+		sb.WriteString(Pick(r, []string{"e", "E"}))
+		sb.WriteString(Pick(r, []string{"", "+", "-"}))
+		sb.WriteString(Pick(r, []string{"0", "1", "2", "3", "10", "22", "23", "300", "308", "309", "310", "323", "324", "330", "400", "9999", "10001", "99999999999", "", "1_0"}))
+	}
+	if r.Chance(1, 25) {
+		sb.WriteString(Pick(r, []string{" ", "x", "f", "d", "_", ".", "e"}))
+	}
+	return sb.String()
+}
+
+func c13NumKey(r *Rand) string {
+	switch r.Intn(6) {
+	case 0:
+		return Pick(r, c13Numbers)
+	case 1:
+		return Pick(r, c13NearNumbers)
+	case 2:
+		return strconv.Itoa(r.Range(-30, 130))
+	case 3:
+		return c13Word(r)
+	}
+	return c13FloatText(r)
+}
+
+// c13LowerKey: weekday/month/sort names with random case, the two runes that lower-case into ASCII
+// (U+0130, U+212A), look-alikes, other runes, invalid UTF-8.
+func c13LowerKey(r *Rand) string {
+	base := Pick(r, append(append(append([]string{}, c13Weekdays...), c13Months...), "numeric", "value", "contextual", "text", "date", "weekly", "kilo", "ki", ""))
+	if r.Chance(1, 6) {
+		base = c13Word(r)
+	}
+	var sb strings.Builder
+	for _, c := range []byte(base) {
+		switch {
+		case c == 'i' && r.Chance(1, 3):
+			sb.WriteString(Pick(r, []string{"İ", "İ", "ı", "I", "Í"}))
+		case c == 'k' && r.Chance(1, 2):
+			sb.WriteString(Pick(r, []string{"K", "K", "Å"}))
+		case r.Chance(1, 3) && c >= 'a' && c <= 'z':
+			sb.WriteByte(c - 32)
+		default:
+			sb.WriteByte(c)
+		}
+		if r.Chance(1, 30) {
+			sb.WriteString(Pick(r, []string{"\xff", "\xc4", "\xb0", "\xe2\x84", "\xc1\x81", "\xed\xa0\x80", "\xf4\x90\x80\x80", "é", "É", "ß", "ẞ", "Σ", "ς", "Ǆ", "ǅ", "Ⅷ", "𐐀", "\U0010ffff", "�", "\x00", "ſ", "Ω"}))
+		}
+	}
+	if r.Chance(1, 20) {
+		n := r.Range(1, 4)
+		for i := 0; i < n; i++ {
+			sb.WriteByte(byte(r.Intn(256)))
+		}
+	}
+	if r.Chance(1, 20) {
+		sb.WriteString(string(rune(r.Intn(0x110000))))
+	}
+	return sb.String()
+}
+
+// c13RuneMap: unicode.ToLower on the non-ASCII runes of s that it changes (the per-rune oracle of op lower).
+func c13RuneMap(s string) string {
+	seen := map[rune]bool{}
+	var parts []string
+	for _, c := range s {
+		if c < utf8.RuneSelf || seen[c] {
+			continue
+		}
+		seen[c] = true
+		if l := unicode.ToLower(c); l != c {
+			parts = append(parts, fmt.Sprintf("%d:%d", c, l))
+		}
+	}
+	if len(parts) == 0 {
+		return "."
+	}
+	return strings.Join(parts, ",")
+}
+
+func c13LibCases(r *Rand, n int) []string {
+	var out []string
+	out = append(out, "lowtab")
+	for i := 0; i < n; i++ {
+		// ParseFloat per key
+		var ks []string
+		for k := r.Range(1, 8); k > 0; k-- {
+			ks = append(ks, c13NumKey(r))
+		}
+		out = append(out, "pf "+HexListS(ks))
+		// the comparator itself on a small pool (distinct keys; spellings of equal values wanted)
+		seen := map[string]bool{}
+		var pool []string
+		for k := r.Range(2, 7); k > 0; k-- {
+			x := c13NumKey(r)
+			if r.Chance(1, 3) && len(pool) > 0 { // another spelling of an earlier value
+				if v, err := strconv.ParseFloat(pool[r.Intn(len(pool))], 64); err == nil {
+					x = strconv.FormatFloat(v, Pick(r, []byte("feg")), Pick(r, []int{-1, 1, 3}), 64)
+				}
+			}
+			if !seen[x] {
+				seen[x] = true
+				pool = append(pool, x)
+			}
+		}
+		out = append(out, "smart "+HexListS(pool))
+		// ToLower
+		for k := 0; k < 3; k++ {
+			key := c13LowerKey(r)
+			out = append(out, "lower "+HexS(key)+" "+c13RuneMap(key))
+			out = append(out, "fold "+HexS(key))
+		}
+	}
+	return out
 }
 
 func c13Word(r *Rand) string {
@@ -351,13 +619,16 @@ func c13Key(r *Rand, class int, layout string) string {
 		if r.Chance(1, 8) {
 			return strconv.FormatFloat(float64(r.Range(-50, 50))/4, 'f', r.Intn(3), 64)
 		}
+		if r.Chance(1, 5) {
+			return c13FloatText(r)
+		}
 		return Pick(r, c13Numbers)
 	case 1:
 		return c13Word(r)
 	case 2:
-		return c13Case(r, Pick(r, c13Weekdays))
+		return c13Dot(r, c13Case(r, Pick(r, c13Weekdays)))
 	case 3:
-		return c13Case(r, Pick(r, c13Months))
+		return c13Dot(r, c13Case(r, Pick(r, c13Months)))
 	case 4:
 		return c13Date(r, layout)
 	case 5:
@@ -391,7 +662,8 @@ var c13Names0 = []string{"text", "numeric", "contextual", "context", "date", "va
 var c13Mods = []string{"", "", "", ":asc", ":desc", ":reverse", ":rev"}
 var c13BadNames = []string{"bla", "numeric:bla", "text:", ":asc", "value:asc:desc", "a:b:c", "text::desc", "valué", "numerİc", "value:",
 	"date:REV", "Value:Desc", "NUMERIC", "Context:Reverse", ":", "::", "numeric :asc", "text:asc ", "sort", "values", "num", "text:ascending",
-	"contextual:rev:x", "\xff", "date:\xff", "TEXT:ASC:", "value:reverse:reverse"}
+	"contextual:rev:x", "\xff", "date:\xff", "TEXT:ASC:", "value:reverse:reverse",
+	"numerİc:desc", "contextual:descendİng", "NUMERİC", "date:rev\xc4", "teKt", "numer\xc4\xb0c:REVERSE", "numerıc", "context\xc4\xb0al"}
 
 func c13SortName(r *Rand) string {
 	if r.Chance(1, 12) {
@@ -521,7 +793,7 @@ type c13Set struct {
 
 func c13MakeSet(r *Rand, keys []string) c13Set {
 	df, dp, _ := c13Dates(keys)
-	return c13Set{keys, c13ValuesField(r, len(keys)), c13PF(keys) + " " + df + " " + dp}
+	return c13Set{keys, c13ValuesField(r, len(keys)), df + " " + dp}
 }
 
 func (s c13Set) line(op, name, extra string) string {
@@ -533,18 +805,7 @@ func (s c13Set) line(op, name, extra string) string {
 
 // specOK: may the spec-level ops be emitted for this set and sort name (the model then answers the set-level order)
 func c13SpecOK(name string, keys []string) bool {
-	if !c13Ascii(name) {
-		return true // unmodelled anyway
-	}
-	mode := c13BaseMode(name)
-	if mode == "contextual" || mode == "context" || mode == "date" {
-		for _, k := range keys {
-			if !c13Ascii(k) {
-				return true // unmodelled anyway
-			}
-		}
-	}
-	return c13Uniform(mode, keys)
+	return c13Uniform(c13BaseMode(name), keys)
 }
 
 func c13Record(name string, set c13Set, perm []int) string {
@@ -631,6 +892,12 @@ func c13Gen(r *Rand, tier string) []string {
 			out = append(out, set.line("axioms", name, ""))
 		}
 	}
+	// the modelled library calls against the real ones
+	if tier == "thorough" {
+		out = append(out, c13LibCases(r, 6000)...)
+	} else {
+		out = append(out, c13LibCases(r, 500)...)
+	}
 	// sort-name table: every name x modifier (and spellings) on a fixed probe set
 	probe := c13MakeSet(NewRand(7), []string{"10", "9", "mon", "fri", "01/02/2022", "12/31/2021", "b", "B"})
 	probe.values = "3,3,1,2,0,5,5,-1"
@@ -694,7 +961,61 @@ func c13Stats(cases []string) map[string]int {
 	for _, c := range cases {
 		f := strings.Fields(c)
 		st["op."+f[0]]++
+		switch f[0] {
+		case "lowtab":
+			continue
+		case "pf", "smart":
+			for _, k := range UnHexListS(f[1]) {
+				v, err := strconv.ParseFloat(k, 64)
+				switch {
+				case err != nil && strings.Contains(err.Error(), "range"):
+					st["float.rangeError"]++
+				case err != nil:
+					st["float.syntaxError"]++
+				case v != v:
+					st["float.nan"]++
+				case math.IsInf(v, 0):
+					st["float.inf"]++
+				case v == 0:
+					st["float.zero"]++
+				case math.Abs(v) < 2.2250738585072014e-308:
+					st["float.subnormal"]++
+				default:
+					st["float.normal"]++
+				}
+				if strings.ContainsAny(k, "xX") && err == nil {
+					st["float.hexSpelling"]++
+				}
+				if strings.Contains(k, "_") {
+					st["float.withUnderscore"]++
+				}
+			}
+			continue
+		case "lower", "fold":
+			k := string(UnHex(f[1]))
+			switch {
+			case c13Ascii(k):
+				st["lower.asciiKey"]++
+			case !utf8.ValidString(k):
+				st["lower.invalidUtf8"]++
+			default:
+				st["lower.nonAsciiValid"]++
+			}
+			if strings.Contains(k, "İ") || strings.Contains(k, "K") {
+				st["lower.withDotIOrKelvin"]++
+			}
+			if l := strings.ToLower(k); !c13Ascii(k) && c13Ascii(l) {
+				st["lower.nonAsciiToAscii"]++
+				if c13IsName(k, c13Weekdays) || c13IsName(k, c13Months) {
+					st["lower.nonAsciiDayMonthName"]++
+				}
+			}
+			continue
+		}
 		name := string(UnHex(f[1]))
+		if !c13Ascii(name) {
+			st["name.nonAscii"]++
+		}
 		mode := c13BaseMode(name)
 		switch mode {
 		case "text", "numeric", "contextual", "context", "date", "value", "":
@@ -706,6 +1027,12 @@ func c13Stats(cases []string) map[string]int {
 			st["name.withModifier"]++
 		}
 		keys := UnHexListS(f[2])
+		for _, k := range keys {
+			if !c13Ascii(k) {
+				st["keys.withNonAscii"]++
+				break
+			}
+		}
 		switch {
 		case len(keys) == 0:
 			st["size.0"]++
@@ -797,6 +1124,31 @@ func c13Corpus() []string {
 	all("contextual", []string{"wed", "abc", "00"})
 	all("contextual", []string{"mon", "fri", "abc"})
 	all("date", []string{"01/02/2022", "12/31/2021", "abc"})
+	// round 2: ParseFloat / ToLower modelled – spellings of one value, signed zero, NaN/Inf spellings, range
+	// errors, hex floats, underscores; non-ASCII spellings of weekday/month/sort names
+	all("numeric", []string{"1", "1.0", "1e0", "+1", "01"})
+	all("numeric", []string{"-0", "0", "0.0", "1e-400"})
+	all("numeric", []string{"nan", "inf", "-inf", "1e400"})
+	all("numeric:desc", []string{"0x1p4", "16", "0x10", "1_6"})
+	all("numeric", []string{"Infinity", "+Inf", "1.7976931348623157e308", "1.7976931348623159e308"})
+	all("contextual", []string{"frİday", "MON", "tue"})
+	all("contextual", []string{"frıday", "mon", "tue"})
+	all("contextual", []string{"aprİl", "MAY", "jun"})
+	all("date", []string{"frİ", "sat", "SUN"})
+	all("numerİc", []string{"10", "9", "1a"})
+	all("valué", []string{"a", "b"})
+	all("contextual", []string{"mon\xff", "mon", "tue"})
+	out = append(out, "lowtab")
+	for _, k := range []string{"frİday", "FRİDAY", "K", "weeK", "İ", "ı", "\xc4", "\xb0\xc4", "\xe2\x84", "\xe2\x84\xaa\xe2\x84\xaa", "É", "é", "\xff", "a\xffB",
+		"\xc1\x81", "\xed\xa0\x80", "\xf4\x90\x80\x80", "ẞ", "Σ", "ǅ", "𐐀", "MONDAY", "monday", "", "\x00A", "�"} {
+		out = append(out, "lower "+HexS(k)+" "+c13RuneMap(k), "fold "+HexS(k))
+	}
+	out = append(out, "pf "+HexListS([]string{"1", "1.0", "1e0", "+1", "-0", "0", "nan", "NaN", "+nan", "inf", "-inf", "+Inf", "Infinity", "infin", "1e400", "-1e400",
+		"1e-400", "0x1p4", "0x10", "1_000", "1_0", "0x_1p0", "1__0", "_1", "1_", "0b11", "0o7", ".5", "5.", ".", "1e", "0x", "0x1", "0x1p", "0X1P+2",
+		"1e5000000000", "0x1p99999999", "1e-99999999999", "00", "007", "1E3", "iNfInItY", "1.7976931348623159e308", "1.7976931348623158e308",
+		"4.9e-324", "2.4703282292062327e-324", "2.4703282292062328e-324", "9007199254740993", "0x1.fffffffffffff8p1023", "0x1.fffffffffffff7p1023",
+		"0x.8p1", "0x1.p0", "0x.p0", "1e+", "1e-", "", " 1", "1 ", "١"}))
+	out = append(out, "smart "+HexListS([]string{"1", "1.0", "1e0", "+1", "-0", "0", "nan", "inf", "-inf", "1e400", "0x1p4", "16", "abc", ""}))
 	w1 := c13MakeSet(rr, []string{"mon", "fri", "abc"})
 	w1.values = "0,0,0"
 	out = append(out, w1.line("sortspec", "contextual", "0,1,2"))
